@@ -21,6 +21,8 @@ enum MemoryBackend<P: PathRefCounter> {
     file: std::fs::File,
     opts: Options,
     remove_on_drop: AtomicBool,
+    /// `true` if this is a copy-on-write (private) memory map
+    copy: bool,
   },
   #[cfg(all(feature = "memmap", not(target_family = "wasm")))]
   Mmap {
@@ -167,8 +169,21 @@ impl<R: RefCounter, PR: PathRefCounter, H: Header> Memory<R, PR, H> {
         *aligned_vec = new;
       }
       MemoryBackend::MmapMut {
-        buf, file, opts, ..
+        buf,
+        file,
+        opts,
+        copy,
+        ..
       } => unsafe {
+        // the private pages of a copy-on-write map (the header included) only exist in the current
+        // mapping, and the file must stay as it is: such an ARENA cannot be re-mapped.
+        if *copy {
+          return Err(std::io::Error::new(
+            std::io::ErrorKind::Unsupported,
+            "a copy-on-write ARENA cannot be truncated",
+          ));
+        }
+
         let current_file_size = file.metadata()?.len();
         if current_file_size < opts.offset + size as u64 {
           file.set_len(opts.offset + size as u64)?;
@@ -315,7 +330,7 @@ impl<R: RefCounter, PR: PathRefCounter, H: Header> Memory<R, PR, H> {
     path: P,
     opts: Options,
   ) -> std::io::Result<Self> {
-    Self::map_mut_in(path.as_ref().to_path_buf(), opts, mmap_mut)
+    Self::map_mut_in(path.as_ref().to_path_buf(), opts, false, mmap_mut)
   }
 
   #[cfg(all(feature = "memmap", not(target_family = "wasm")))]
@@ -328,7 +343,7 @@ impl<R: RefCounter, PR: PathRefCounter, H: Header> Memory<R, PR, H> {
   {
     let path = path_builder().map_err(Either::Left)?;
 
-    Self::map_mut_in(path, opts, mmap_mut).map_err(Either::Right)
+    Self::map_mut_in(path, opts, false, mmap_mut).map_err(Either::Right)
   }
 
   #[cfg(all(feature = "memmap", not(target_family = "wasm")))]
@@ -336,7 +351,7 @@ impl<R: RefCounter, PR: PathRefCounter, H: Header> Memory<R, PR, H> {
     path: P,
     opts: Options,
   ) -> std::io::Result<Self> {
-    Self::map_mut_in(path.as_ref().to_path_buf(), opts, mmap_copy)
+    Self::map_mut_in(path.as_ref().to_path_buf(), opts, true, mmap_copy)
   }
 
   #[cfg(all(feature = "memmap", not(target_family = "wasm")))]
@@ -349,13 +364,14 @@ impl<R: RefCounter, PR: PathRefCounter, H: Header> Memory<R, PR, H> {
   {
     let path = path_builder().map_err(Either::Left)?;
 
-    Self::map_mut_in(path, opts, mmap_copy).map_err(Either::Right)
+    Self::map_mut_in(path, opts, true, mmap_copy).map_err(Either::Right)
   }
 
   #[cfg(all(feature = "memmap", not(target_family = "wasm")))]
   pub(crate) fn map_mut_in(
     path: std::path::PathBuf,
     opts: Options,
+    copy: bool,
     f: impl FnOnce(MmapOptions, &std::fs::File) -> std::io::Result<memmap2::MmapMut>,
   ) -> std::io::Result<Self> {
     check_offset::<H>(&opts)?;
@@ -441,6 +457,7 @@ impl<R: RefCounter, PR: PathRefCounter, H: Header> Memory<R, PR, H> {
           reserved,
           flag: MemoryFlags::ON_DISK | MemoryFlags::MMAP,
           backend: MemoryBackend::MmapMut {
+            copy,
             remove_on_drop: AtomicBool::new(false),
             path: PR::new(path),
             buf: Box::into_raw(Box::new(mmap)),
